@@ -25,6 +25,7 @@ import CaddyModel.C13.Witness
 import CaddyModel.C13.ListenLemmas
 import CaddyModel.C13.Caddyfile
 import CaddyModel.C13.UrlLemmas
+import CaddyModel.C13.NetipLemmas
 import CaddyModel.Gen.AdminGate
 import CaddyModel.Gen.Glue
 import CaddyModel.Gen.ConfigLocks
@@ -124,6 +125,24 @@ theorem plain_listen_string_host_gate (H : Bytes → Req → σ → σ) (mux : B
   · simp [localEndpoint, parse_plain_host_port h ds dflt hh hdne hd hle]
   · exact (enforceHost_iff_specific_address cfg _ modulePats).2 hspec
   · exact local_endpoint_rejects_foreign_host H mux cfg _ modulePats idx fuel r s hspec hhost
+
+/-- **`name:port` listen strings, the netip verdict computed by the model**: for a host NAME (plain
+    bytes, at least one of them neither a digit nor a dot) nothing is left to a table — the listen
+    string parses, netip does not take the name for an address, the Host check is on, and a
+    foreign Host is never served. -/
+theorem hostname_listen_string_host_gate (H : Bytes → Req → σ → σ) (mux : Bytes → Bytes → Route) (cfg : AdminCfg)
+    (h ds dflt : Bytes) (modulePats : List Bytes) (idx : Index) (fuel : Nat) (r : Req) (s : σ)
+    (hh : ∀ b ∈ h, plainHostByte b ∧ b ≠ percent) (hname : ∃ b ∈ h, isDigitB b = false ∧ b ≠ 46)
+    (hdne : ds ≠ []) (hd : ∀ b ∈ ds, isDigitB b = true) (hle : digitsVal 10 ds ≤ 65535)
+    (hhost : ¬ HostAllowed cfg ⟨sTcp, h, digitsVal 10 ds, ipClassOf h⟩ r.host) :
+    ∃ hd', localEndpoint cfg (h ++ colon :: ds) dflt (ipClassOf h) modulePats = some hd' ∧ hd'.enforceHost = true ∧
+      Untouched (serveHTTP H mux hd' idx fuel r s) s := by
+  have hne : h ≠ [] := by
+    obtain ⟨b, hb, _⟩ := hname
+    intro e; rw [e] at hb; simp at hb
+  have hip : ipClassOf h = .notIP := ipClassOf_hostname h (fun b hb => ⟨(hh b hb).1.1, (hh b hb).2⟩) hname
+  exact plain_listen_string_host_gate H mux cfg h ds dflt (ipClassOf h) modulePats idx fuel r s
+    (fun b hb => (hh b hb).1) hne (by rw [hip]; decide) hdne hd hle hhost
 
 /-- **a placeholder in `listen` that cannot be expanded stops the endpoint**: whenever
     `ReplaceOrErr(addr, true, true)` does not succeed — unknown placeholder, placeholder that
@@ -658,6 +677,19 @@ example : parseAdminListenAddr (str "[::1]:2019") [] = .ok sTcp (str "::1") 2019
     ∧ parseAdminListenAddr (str "localhost:2019-2020") [] = .err
     ∧ parseAdminListenAddr (str "localhost:x") [] = .err
     ∧ parseAdminListenAddr (str "a:b:c") [] = .ok sTcp (str "a:b:c") 0 := by decide   -- (sic: the lenient second try)
+-- hostname_listen_string_host_gate, and netip's verdicts as computed by the model
+example : (∀ b ∈ str "admin.example.com", plainHostByte b ∧ b ≠ percent) ∧ (∃ b ∈ str "admin.example.com", isDigitB b = false ∧ b ≠ 46) := by
+  decide
+example : ipClassOf (str "0.0.0.0") = .unspecified ∧ ipClassOf (str "::") = .unspecified ∧ ipClassOf (str "0:0:0:0:0:0:0:0") = .unspecified
+    ∧ ipClassOf (str "::%eth0") = .other ∧ ipClassOf (str "::ffff:0.0.0.0") = .other
+    ∧ ipClassOf (str "127.0.0.1") = .loopback ∧ ipClassOf (str "127.9.9.9") = .loopback ∧ ipClassOf (str "::1") = .loopback
+    ∧ ipClassOf (str "::ffff:127.0.0.1") = .loopback ∧ ipClassOf (str "::1%lo") = .loopback
+    ∧ ipClassOf (str "192.168.1.5") = .other ∧ ipClassOf (str "fe80::1%eth0") = .other
+    ∧ ipClassOf (str "127.0.0.01") = .notIP ∧ ipClassOf (str "127.1") = .notIP ∧ ipClassOf (str "1:2:3:4:5:6:7:8::") = .notIP
+    ∧ ipClassOf (str "localhost") = .notIP ∧ ipClassOf [] = .notIP := by decide
+example : (localEndpoint exCfg (str "0.0.0.0:2019") [] (ipClassOf (str "0.0.0.0")) []).map (·.enforceHost) = some false
+    ∧ (localEndpoint exCfg (str "[::]:2019") [] (ipClassOf (str "::")) []).map (·.enforceHost) = some false
+    ∧ (localEndpoint exCfg (str "192.168.1.5:2019") [] (ipClassOf (str "192.168.1.5")) []).map (·.enforceHost) = some true := by decide
 -- listen_placeholder_error_stops_endpoint: HOST=localhost, PORT=2019, UNSET unset
 def exEnv : C18.Env := fun k =>
   if k = str "env.HOST" then some (str "localhost") else if k = str "env.PORT" then some (str "2019")
